@@ -308,6 +308,7 @@ impl Agg {
             ("failed_call", f.failed_call),
             ("env_change", f.env_change),
             ("debug_session", f.debug_session),
+            ("heap_layout", f.heap_layout),
         ] {
             if v > 0 {
                 Self::bump(&mut self.fault_execs, k, 1);
